@@ -42,13 +42,17 @@ const importedPkg = "package pk\n\nimport \"fmt\"\n\nvar V = mark()\n\nfunc mark
 
 // run executes the mutant under the interpreter.
 func (c *Case) run(src string, budget uint64) yrun.Outcome {
+	return c.runStall(src, budget, 20*time.Second)
+}
+
+func (c *Case) runStall(src string, budget uint64, stall time.Duration) yrun.Outcome {
 	if !c.Imported {
-		out, _ := yrun.Execute(&yrun.Job{Src: src, OpBudget: budget}, 20*time.Second)
+		out, _ := yrun.Execute(&yrun.Job{Src: src, OpBudget: budget}, stall)
 		return out
 	}
 	withImport := strings.Replace(src, "import (\n", "import (\n\t_ \"pk\"\n", 1)
 	out, _ := yrun.Execute(&yrun.Job{GoPath: "gp", Path: "gp/src/m/main.go", OpBudget: budget,
-		Files: map[string]string{"gp/src/m/main.go": withImport, "gp/src/pk/pk.go": importedPkg}}, 20*time.Second)
+		Files: map[string]string{"gp/src/m/main.go": withImport, "gp/src/pk/pk.go": importedPkg}}, stall)
 	return out
 }
 
@@ -793,7 +797,17 @@ func (c *Case) check() (sig, msg string, skip bool) {
 	if tc.err == nil {
 		return "", "", true
 	}
+	if c.Operator != "unused-variable" && strings.Contains(tc.err.Error(), "declared and not used") && vf.IsKnown("C12", "unused-variable-accepted") {
+		// the mutation turned a redeclared variable into a new, unused one: the
+		// interpreter has no "declared and not used" check (recorded finding)
+		return "", "", true
+	}
 	out := c.run(c.Src, 3_000_000)
+	if out.Class == yrun.Deadlock && out.Stdout == "" {
+		// nothing ran and nothing moved for 20 s: a compilation starved by the
+		// load of the machine, or a hang of the compiler. Decide with a long limit.
+		out = c.runStall(c.Src, 3_000_000, 5*time.Minute)
+	}
 	op := c.Operator
 	if c.Imported && strings.Contains(out.Stdout, "PK-") && !strings.Contains(out.Stdout, "PKGINIT") {
 		// only the imported package ran: its own root cause
